@@ -299,8 +299,19 @@ def _strict_gate(ctx) -> None:
             ctx.ob("STRICT.gate", "parsing._parse/dateutil", ok,
                    f"the dateutil fall-back is reached under {sorted(facts)}; it must require strict to be false", m.loc(c))
             hs = set(F.enclosing_handlers(c))
-            ctx.ob("STRICT.errors", "parsing._parse/dateutil-handlers", "ValueError" in hs and bool(hs & CATCHES_OVERFLOW),
-                   f"handlers around dateutil: {sorted(hs)}; it documents ValueError and OverflowError", m.loc(c))
+            # OverflowError may be turned into ParserError at the call itself or further out on the only route to it:
+            # around the `_parse(...)` call in pendulum.parsing.parse
+            outer: set = set()
+            try:
+                pf = m.func("parse")
+                for c2 in core.calls(pf):
+                    if nun(c2.func) == "_parse":
+                        outer |= set(F.enclosing_handlers(c2))
+            except core.AnchorMissing:
+                pass
+            ctx.ob("STRICT.errors", "parsing._parse/dateutil-handlers", bool((hs | outer) & CATCHES_OVERFLOW),
+                   f"handlers around dateutil: {sorted(hs)}, around _parse() in parsing.parse: {sorted(outer)}; dateutil documents OverflowError "
+                   f"besides ValueError, it must not escape parse()", m.loc(c))
     d = core.const("parsing", "DEFAULT_OPTIONS")
     ctx.ob("STRICT.default", "DEFAULT_OPTIONS/strict", d.get("strict") is True, f"{d}", m.rel)
     # the three suppress blocks only swallow ValueError-family errors and each returns its parser's result
